@@ -50,6 +50,14 @@ class C20(Prop):
                 except Exception: time.sleep(0.1)
             n = 120 if tier == 'quick' else 1500
             texts_ = [t for _, t in gens.mixed(rng, n)] + ['', '+--+', '<script>alert(1)</script>', '\ufffd', '+-----+\n| a\ufffdb |--> b\n+-----+\n', '\ufeffab', 'a\u2028b', '\U0010ffff', '\ud7ff\ue000']
+            # the same labelled shapes at different places, and legends with several classes, in one server life
+            history = []
+            for (dx, dy) in [(0, 0), (9, 3), (2, 0), (0, 5), (30, 1)]:
+                for lab in 'ab':
+                    history.append('\n' * dy + '\n'.join(' ' * dx + r for r in [' ,-.', '( %s )' % lab, " `-'"]))
+                    history.append('\n' * dy + '\n'.join(' ' * dx + r for r in ['  _', ' (%s)' % lab]))
+            texts_ += history
+            texts_ += ['{a}\n# Legend:\na = {fill:red}\nb = {stroke:blue}\nc = {x:y}\nd = {z:w}\ne = {q:r}', '{b}\n# Legend:\nb = {fill:green}', 'plain --> text'] * 3
             big = ['a' * 20000, ('+-' * 40 + '\n') * 200, '\n'.join('| ' * 30 for _ in range(300))]
             bad = [b'\xff', b'+\xc0\xaf', b'\xed\xa0\x80', b'ab\xe4\xb8', b'\xf5\x80\x80\x80', b'\xf0\x8f\xbf\xbf', b'\x80', bytes(rng.randrange(256) for _ in range(40))]
             for i in range(n):
@@ -61,6 +69,8 @@ class C20(Prop):
                 elif k < 0.87: reqs.append((rng.choice(['PUT', 'DELETE', 'PATCH']), '/', b'x'))
                 elif k < 0.94: reqs.append((rng.choice(['GET', 'POST']), rng.choice(['/x', '/svg', '//', '/index.html']), b'+--+'))
                 else: reqs.append(('RAW', '', rng.choice([b'GARBAGE\r\n\r\n', b'GET\r\n\r\n', b'POST / HTTP/1.1\r\nContent-Length: 10\r\n\r\nab', b'\x00\x01\x02', b'GET / HTTP/9.9\r\n\r\n'])))
+            # a fixed opening: every answer is the conversion of its own body, whatever was asked before
+            reqs = [('POST', '/', t.encode()) for t in history] + [('POST', '/', b'{a}\n# Legend:\na = {fill:red}\nb = {stroke:blue}\nc = {x:y}'), ('POST', '/', b'{b}\n# Legend:\nb = {fill:green}'), ('POST', '/', b'plain')] + reqs
             # the model's answers
             cases = []
             for i, (m, pth, body) in enumerate(reqs):
